@@ -216,7 +216,10 @@ def render(rng, frac):
 
 def rand_frac(rng, lo=1, hi=5000, dmax=3):
     d = rng.randint(0, dmax)
-    return Fraction(rng.randint(lo, hi), 10 ** d)
+    f = Fraction(rng.randint(lo, hi), 10 ** d)
+    if rng.random() < 0.15:
+        f += Fraction(rng.randint(1, 999), 10 ** 9)     # digits in the 7th..9th decimal of a nanometre: they are part of the distance
+    return f
 
 
 def gen_list(rng, negative=False, allow_single=True):
@@ -229,7 +232,8 @@ def gen_list(rng, negative=False, allow_single=True):
         vals.append(rng.choice(vals))  # a repeated radius: parsed as given (increments/boundaries are then outside the statement)
     rng.shuffle(vals)
     if negative:
-        vals[rng.randrange(len(vals))] *= -1
+        k = rng.randrange(len(vals))
+        vals[k] = -vals[k] if rng.random() < 0.6 else -Fraction(rng.randint(1, 9), 10 ** rng.randint(9, 12))   # also tiny negatives
     o, c = rng.choice(["[]", "()"])
     if len(vals) == 1 and o == "(":
         body = render(rng, vals[0]) + ws(rng) + ","
@@ -308,6 +312,17 @@ def drive(tr, text, kind, must_reject=False):
             inc = tp.get_increments()
             br = tr.get_between_radii(grid)
             br0 = tr.get_between_radii(grid, include_zero=True)
+            if len(text) % 2 == 0:
+                # hostile caller: works in place on what it was handed, then the same radii are asked again (also through a new parser)
+                try:
+                    br /= 10
+                    inc *= 3
+                    br0 += 1
+                except Exception:
+                    pass
+                tr.get_between_radii(grid)
+                tr.get_between_radii(grid.copy(), include_zero=True)
+                tr.TranslationParser(text).get_increments()
             s = tp.sum_increments_from_first_radius()
             REC.check("C16.sum_increments", abs(s - (grid[-1] - grid[0])) <= 1e-9 * max(1, grid[-1]), {"text": text, "sum": s})
         except Exception as e:
